@@ -110,6 +110,28 @@ def model_variants(path, clsname, rng):
     return out
 
 
+def pheno_variants(rng):
+    """G_E_Phenotyping protocols: the genomic model is not stored (from_hdf5 takes it as an argument), the trial design is"""
+    from pybrops.breed.prot.pt.G_E_Phenotyping import G_E_Phenotyping
+    gms = model_variants("pybrops.model.gmod.DenseAdditiveLinearGenomicModel", "DenseAdditiveLinearGenomicModel", rng)
+    out = []
+    for k, (nenv, scalar) in enumerate(((1, True), (3, False), (2, False), (4, True), (2, True))):
+        gm = gms[1] if k % 2 else gms[0]
+        T = gm.ntrait
+        def var(z):
+            return (0.0 if z else rng.choice([0.5, 1.25, 3.0])) if scalar else np.array([0.0 if (z and t == 0) else rng.choice([0.5, 1.25, 3.0]) for t in range(T)])
+        nrep = rng.randrange(1, 4) if scalar else np.array([rng.randrange(1, 4) for _ in range(nenv)])
+        out.append(G_E_Phenotyping(gm, nenv=nenv, nrep=nrep, var_env=var(k == 0), var_rep=var(k == 1), var_err=var(False)))
+    return out
+
+
+def read_back(cls, fn, loc, like):
+    """from_hdf5 of the class; protocols whose genomic model is not stored get the writer's model back as an argument"""
+    if hasattr(like, "gpmod") and "gpmod" in cls.from_hdf5.__code__.co_varnames:
+        return cls.from_hdf5(fn, loc, gpmod=like.gpmod)
+    return cls.from_hdf5(fn, loc)
+
+
 FAMILIES = []
 for _c in ("DenseGenotypeMatrix", "DensePhasedGenotypeMatrix"):
     FAMILIES.append((_c, lambda rng, c=_c: gmat_variants(c, rng)))
@@ -126,6 +148,7 @@ for _c in ("DenseTwoWayDHAdditiveProgenyGeneticCovarianceMatrix", "DenseDihybrid
     FAMILIES.append((_c, lambda rng, c=_c: tensor_variants("pybrops.model.pcvmat." + c, c, rng)))
 for _c in ("DenseAdditiveLinearGenomicModel", "DenseAdditiveDominanceLinearGenomicModel"):
     FAMILIES.append((_c, lambda rng, c=_c: model_variants("pybrops.model.gmod." + c, c, rng)))
+FAMILIES.append(("G_E_Phenotyping", pheno_variants))
 
 
 def hdf5_history(hid, clsname, variants, rng, tmpdir, order=None):
@@ -134,6 +157,7 @@ def hdf5_history(hid, clsname, variants, rng, tmpdir, order=None):
     locs = [None, "grp", "grp/sub/", "π-grp/"]
     ev = []
     written = []
+    last = {}
     oneloc = rng.choice(locs)
     for w in range(rng.randrange(2, 5) if order is None else len(order)):
         o = variants[rng.randrange(len(variants)) if order is None else order[w]]
@@ -156,11 +180,12 @@ def hdf5_history(hid, clsname, variants, rng, tmpdir, order=None):
             return {"id": hid, "cls": clsname, "ev": ev, "writefail": e["err"]}
         if loc not in written:
             written.append(loc)
+        last[loc] = o
         for l2 in written:
             r = {"op": "read", "loc": str(l2), "err": None, "obj": {}}
             try:
                 with time_limit(30):
-                    back = cls.from_hdf5(fn, l2)
+                    back = read_back(cls, fn, l2, last[l2])
                 r["obj"] = proj(back)
             except Exception as ex:
                 r["err"] = "%s: %s" % (type(ex).__name__, str(ex)[:150])
@@ -225,7 +250,7 @@ def twin_history(hid, clsname, o, tw, mode, rng, tmpdir):
                 return {"id": hid, "cls": clsname, "ev": ev, "writefail": e["err"], "twin": mode}
         r = {"op": "read", "loc": str(loc), "err": None, "obj": {}}
         try:
-            r["obj"] = proj(cls.from_hdf5(fn, loc))
+            r["obj"] = proj(read_back(cls, fn, loc, second))
         except Exception as ex:
             r["err"] = "%s: %s" % (type(ex).__name__, str(ex)[:150])
         ev.append(r)
